@@ -56,7 +56,19 @@ def xyz():
 
 def build_crop(x, root, case):
     kind = case["kind"]
-    fn = crops.record(kind, None)
+    # (with 'fn_yields' the function itself looks at a file - so that
+    # a grower can be overtaken while it is still computing)
+    ypath = os.path.join(crops.crop_dir(root, "c11"), "results",
+                         "xyz-result-999.jbdmp")
+    slow = ypath if case.get("fn_yields") else None
+    if case.get("fn_yields") and case.get("straggler"):
+        # the last grower (a second one of its batch) is still inside the
+        # function when the reaper has finished and tidied up
+        slow = ("hold", ypath,
+                os.path.join(crops.crop_dir(root, "c11"),
+                             "xyz-settings.jbdmp"),
+                f"actor-grow{len(case['growers']) - 1}")
+    fn = crops.record(kind, None, slow)
     N, B = case["N"], case["B"]
     crop = x.Crop(fn=fn, name="c11", parent_dir=root, num_batches=B)
     crop.sow_combos({"a": list(range(N))}, verbosity=0)
@@ -210,6 +222,7 @@ def one_run(x, root, case, expected, direct, schedule, default="rr"):
     sched = fsx.Baton(schedule, wants=wants, on_op=on_op, default=default,
                       max_steps=3000)
     # every actor has its own Crop object (own process in reality)
+    straggler = None
     for gi, b in enumerate(case["growers"]):
         c = x.Crop(name="c11", parent_dir=root)
         how = case.get("grow_how", "crop")
@@ -230,8 +243,12 @@ def one_run(x, root, case, expected, direct, schedule, default="rr"):
             if case.get("pre_grown") is not None else {}
         # (waiting comes first: with wait=True every result is waited for,
         # whatever else is allowed)
-        sched.add("reap", lambda: cr.reap(wait=True, clean_up=False,
-                                          **ropts))
+        if case.get("reap_cleans"):
+            # the default: the crop is removed once everything is reaped
+            sched.add("reap", lambda: cr.reap(wait=True, **ropts))
+        else:
+            sched.add("reap", lambda: cr.reap(wait=True, clean_up=False,
+                                              **ropts))
     reported = []
     if case.get("poller"):
         cp = x.Crop(name="c11", parent_dir=root)
@@ -280,13 +297,29 @@ def one_run(x, root, case, expected, direct, schedule, default="rr"):
     info["yield_points"] = icpt.count
     if icpt.count == 0:
         raise core.HarnessError("no operation was intercepted")
+    if straggler is not None and actors["reap"]["exc"] is None:
+        try:
+            with core.quiet():
+                straggler()
+        except FileNotFoundError:
+            pass        # the crop is gone: nowhere to put the result
+        except Exception as e:
+            core.violated(f"grow-raised:{type(e).__name__}",
+                          f"the late grower raised {e!r:.300}")
 
     # ---- oracles
+    cdir_ = crops.crop_dir(root, "c11")
     for name, a in actors.items():
         if a["exc"] is not None:
             e = a["exc"]
             if isinstance(e, core.PropertyViolation):
                 raise e
+            if case.get("reap_cleans") and name.startswith("grow") and \
+                    isinstance(e, FileNotFoundError) and \
+                    actors["reap"]["exc"] is None:
+                # a second grower of a batch that comes too late: the crop
+                # is gone, it has nowhere to put its result
+                continue
             where = core._innermost_repo_frame(e.__traceback__)
             core.violated(
                 f"{'reaper' if name == 'reap' else name.rstrip('0123456789')}"
@@ -298,6 +331,13 @@ def one_run(x, root, case, expected, direct, schedule, default="rr"):
         require(models.deep_eq(got, direct), "reaper-wrong-result",
                 lambda: f"reap(wait=True) returned {got!r:.300}, direct run "
                         f"{direct!r:.300}; trace tail {sched.trace[-12:]}")
+    if case.get("reap_cleans") and case.get("reaper", True):
+        require(not os.path.exists(cdir_), "crop-back-after-clean-up",
+                f"the reaper removed the crop, yet "
+                f"{sorted(os.listdir(cdir_)) if os.path.isdir(cdir_) else cdir_}"
+                f" exists when everybody has finished (a late grower "
+                f"re-created it): the next sow under this name would adopt "
+                f"what is in there")
     for rec in reported:
         if rec[0] == "num_results":
             _, n, present, truth = rec
@@ -402,7 +442,9 @@ def strategy(draw):
     growers = list(range(B))
     if draw(st.booleans()):
         growers.append(draw(st.integers(0, B - 1)))
-    case = {"B": B, "N": N, "kind": draw(st.sampled_from(["int", "big"])),
+    case = {"B": B, "N": N,
+            "kind": draw(st.sampled_from(["int", "big", "int", "big",
+                                          "huge"])),
             "growers": growers,
             "grow_how": draw(st.sampled_from(["crop", "xyzpy"])),
             "reaper": True,
@@ -410,6 +452,13 @@ def strategy(draw):
             "schedule": draw(st.lists(st.integers(0, 5), max_size=70))}
     if B >= 2 and draw(st.sampled_from([False, False, True])):
         case["pre_grown"] = draw(st.integers(0, B - 1))
+    if len(growers) > B and draw(st.booleans()):
+        # a batch grown twice and a reaper that tidies up afterwards
+        case["reap_cleans"] = True
+        case["straggler"] = draw(st.booleans())
+        case["fn_yields"] = True
+        case["poller"] = 0
+        case.pop("pre_grown", None)     # (a tolerant reap keeps the crop)
     return case
 
 
